@@ -23,6 +23,7 @@ import (
 	"sort"
 	"strconv"
 	"strings"
+	"sync"
 	"sync/atomic"
 	"time"
 
@@ -327,7 +328,33 @@ func rawUnit(db string, q *areq, raw []byte) (*unit, error) {
 
 // ---- machine / process incarnations
 
+// errSink collects error-level log lines of the ArrowBuffer (a failed flush is only logged when it happens
+// inside a schema-change flush; the rows of that buffer are gone).
+type errSink struct {
+	mu    sync.Mutex
+	lines []string
+}
+
+func (e *errSink) Write(b []byte) (int, error) {
+	e.mu.Lock()
+	e.lines = append(e.lines, strings.TrimSpace(string(b)))
+	e.mu.Unlock()
+	return len(b), nil
+}
+
+func (e *errSink) mergeConflict() string {
+	e.mu.Lock()
+	defer e.mu.Unlock()
+	for _, l := range e.lines {
+		if strings.Contains(l, "changes type between batches") {
+			return l
+		}
+	}
+	return ""
+}
+
 type machine struct {
+	sink   errSink
 	d      *disk
 	walDir string
 	ev     []string // LTS event log
@@ -400,7 +427,7 @@ func (m *machine) boot(walMax int64) (*proc, error) {
 	}
 	p.w = w
 	m.fileOrd(filepath.Base(w.CurrentFile()))
-	p.buf = ingest.NewArrowBuffer(baseCfg(), p.v, zerolog.Nop())
+	p.buf = ingest.NewArrowBuffer(baseCfg(), p.v, zerolog.New(&m.sink).Level(zerolog.ErrorLevel))
 	p.buf.SetWAL(w)
 	return p, nil
 }
@@ -581,6 +608,7 @@ type result struct {
 	persist int // entries persisted
 	nCb     int
 	err     error
+	merge   string // a flush failed with a column type conflict in mergeBatches (its rows are gone)
 	stage   string
 	t0, t1  int64
 }
@@ -639,11 +667,23 @@ func runScenario(c *vh.Ctx, us []*unit, sc scen) (res result) {
 		stage = "live-flush"
 		if err := p.flushClose(); err != nil {
 			res.err = err
+			res.stage = stage
+			return res
+		}
+		if mc := m.sink.mergeConflict(); mc != "" {
+			res.err = fmt.Errorf("live flush failed: %s", mc)
+			res.stage = stage
 			return res
 		}
 		res.rows, res.err = m.d.allRows()
 		res.ev = m.ev
 		res.t1 = time.Now().UnixMicro()
+		return res
+	}
+	if mc := m.sink.mergeConflict(); mc != "" {
+		res.err = fmt.Errorf("live flush failed: %s", mc)
+		res.stage = "live-flush"
+		p.kill()
 		return res
 	}
 	p.kill()
@@ -725,11 +765,12 @@ cutDone:
 		last = p3
 	}
 	stage = "flush-after-recovery"
-	if err := last.flushClose(); err != nil {
+	if err := last.flushClose(); err != nil && m.sink.mergeConflict() == "" {
 		res.err = err
 		res.stage = stage
 		return res
 	}
+	res.merge = m.sink.mergeConflict()
 	res.rows, res.err = m.d.allRows()
 	res.ev = m.ev
 	res.t1 = time.Now().UnixMicro()
@@ -1007,6 +1048,29 @@ func crashMonitors(c *vh.Ctx, us []*unit, sc scen, res result, plain map[int64][
 	}
 }
 
+func mergeKey(us []*unit) string {
+	for _, u := range us {
+		for n := range u.names {
+			if u.rowFmt && strings.HasPrefix(n, "_") && n != "_database" && n != "_measurement" {
+				return "row-lost:flush-after-replay:null-in-underscore-column:mergeBatches-type-conflict"
+			}
+		}
+	}
+	return "row-lost:flush-after-replay:mergeBatches-type-conflict:other"
+}
+
+func reqsOf(us []*unit) string {
+	var ds []string
+	seen := map[*areq]bool{}
+	for _, u := range us {
+		if !seen[u.req] {
+			seen[u.req] = true
+			ds = append(ds, u.req.descr)
+		}
+	}
+	return "requests: " + strings.Join(ds, " ; ")
+}
+
 func recoveryFailKey(err error, us []*unit, stage string) string {
 	key := "restart-failed:" + stage
 	if strings.Contains(err.Error(), "PANIC") && strings.Contains(err.Error(), "interface conversion") {
@@ -1094,6 +1158,12 @@ func runHistory(c *vh.Ctx, r *vh.Rand, reqs []*areq, h int) {
 		c.Tag("mon:recovery-panic")
 		return
 	}
+	if plain.merge != "" {
+		c.Fail(mergeKey(us), "acknowledged rows are lost at startup recovery: the flush of the replayed rows fails ("+plain.merge+
+			"). The row callback replays each row as a one-row batch; a NULL cell of a column whose name starts with '_' becomes a one-row all-NULL string column, getColumnSignature skips '_' columns, so the next row's typed column of that name shares the buffer; mergeBatches refuses the type conflict, the flush fails, the buffer is dropped and the WAL file is already deleted", reqsOf(us)+" ;; "+describe(us))
+		c.Tag("mon:merge-conflict-after-replay")
+		return
+	}
 	lv, rs := byRid(liveRes.rows), byRid(plain.rows)
 	nontrivial := false
 	for _, u := range us {
@@ -1151,6 +1221,10 @@ func runHistory(c *vh.Ctx, r *vh.Rand, reqs []*areq, h int) {
 			} else {
 				c.Fail(recoveryFailKey(res.err, us, res.stage), res.err.Error(), describe(us)+" ;; "+sc.name)
 			}
+			continue
+		}
+		if res.merge != "" {
+			c.Fail(mergeKey(us), "flush of replayed rows fails: "+res.merge, reqsOf(us)+" ;; "+describe(us)+" ;; "+sc.name)
 			continue
 		}
 		c.Tag("schedule:" + strings.TrimRight(sc.name, "0123456789-"))
